@@ -5,6 +5,7 @@ from sa.engine.api import *
 from sa.engine import tsa
 
 UNITS = ["banman.cpp"]
+NET_UNITS = ["netaddress.cpp"]   # canonical CSubNet keys (separate program: keeps the banman facts as they were)
 EXPLANATION = ("Of C60 only the last sentence (ban list and discouragement filter of BanMan) is decided, and only its shape. (1) IsBanned(CNetAddr) "
                "returns true exactly for `some entry of m_banned has now < nBanUntil && subnet.Match(addr)` (complete loop; every exit that may answer false lies "
                "after the whole scan or under m_banned.empty(); outside the scan only an unexpired entry found under CSubNet{addr} may answer true); "
@@ -586,3 +587,49 @@ def check(ctx):
     sw = P.fn(B + "SweepBanned")
     tsa.fn_requires(ctx, sw, r"requires_capability\(\s*(this->)?m_banned_mutex\s*\)", text="SweepBanned requires its caller to hold m_banned_mutex")
     tsa.check_units(ctx, UNITS)
+    canonical_subnet_mask(ctx, ctx.program(NET_UNITS))
+
+
+# ------------------------------------------------------------------------------------------------ canonical subnet keys
+# banmap_t is keyed by CSubNet, whose operator== / operator< compare the WHOLE netmask array.  Two spellings of one subnet (built from an address, parsed from
+# "a.b.c.d/32", reloaded from banlist.json) are the same key only if every constructor leaves the mask bytes beyond the address size zero.  Decided: as long as the
+# comparisons cover the whole array, every block write (memset with a non-zero fill / memcpy) into `netmask` by a constructor is bounded by an `m_addr.size()`
+# term, never by a constant larger than the IPv4 address size (seeded change C60w).  Indexed stores (the prefix-length constructor) are not decided here.
+NETMASK = [".", ["this"], "CSubNet::netmask"]
+
+
+def canonical_subnet_mask(ctx, P):
+    whole = []
+    for op in ("operator==", "operator<"):
+        for f in P.funcs.get(op, []):
+            if [p["ty"] for p in f.params] != ["const CSubNet &", "const CSubNet &"]:
+                continue
+            ctx.used(f)
+            for _, e in all_exprs(f.body):
+                for x in subexprs(e):
+                    if is_expr(x) and x[0] == "call" and x[1] == "memcmp" and len(x) == 5 and all(is_expr(a) and a[0] == "." and a[2] == "CSubNet::netmask" for a in x[2:4]):
+                        whole.append((op, x[4]))
+    if len(whole) < 2:
+        raise AnalysisBroken("C60: CSubNet operator== / operator< no longer compare the netmask arrays with memcmp (unknown idiom)")
+    full = all(is_expr(n) and n[0] == "int" and int(n[1]) == 16 for _, n in whole)
+    ctx.note("CSubNet comparisons cover the whole 16-byte netmask: %s" % full)
+    n = 0
+    for f in P.funcs.get("CSubNet::CSubNet", []):
+        for sx in sites(f, lambda e: is_expr(e) and e[0] == "call" and e[1] in ("memset", "memcpy") and len(e) == 5 and e[2] == NETMASK, P):
+            x = sx.expr
+            if x[1] == "memset" and match(["int", 0], x[3]):
+                continue                                   # zeroing the whole array is what makes the tail canonical
+            ctx.used(f)
+            n += 1
+            ln = x[4]
+            while is_expr(ln) and ln[0] == "cast":
+                ln = ln[2]
+            by_addr = is_expr(ln) and ln[0] == "mcall" and ln[1].endswith("::size") and is_expr(ln[2]) and ln[2][0] == "." and ln[2][2] == "CNetAddr::m_addr"
+            const = int(ln[1]) if is_expr(ln) and ln[0] == "int" else None
+            if not by_addr and const is None:
+                raise AnalysisBroken("C60: %s into CSubNet::netmask at %s has a length of unknown shape: %s" % (x[1], sx.where, show(ln)))
+            ok = by_addr or const <= 4 or not full
+            ctx.ob("CSubNet/canonical-mask/%s@L%s" % (x[1], sx.line), "BOUNDED-WRITE", "a CSubNet constructor fills netmask only up to the size of the network address "
+                   "(bytes beyond it stay zero): operator== and operator< compare all 16 bytes, so an IPv4 subnet with a longer mask would be a different ban-list key than "
+                   "the same subnet parsed from its string", ok, sx.where, {"length": show(ln)})
+    ctx.floor("block writes into CSubNet::netmask", n, 2)
